@@ -35,7 +35,12 @@ IntVal(t, ctx) ==
          CASE t.k = "add" -> IntOf(BAdd(l.v, r.v))
            [] t.k = "sub" -> IntOf(BSub(l.v, r.v))
            [] t.k = "mul" -> IntOf(BMul(l.v, r.v))
-           [] t.k = "pow" -> IF r.v.s >= 0 /\ IsSmall(r.v) /\ SmallInt(r.v) <= 200 THEN IntOf(BPow(l.v, SmallInt(r.v))) ELSE NoInt
+           [] t.k = "pow" -> IF r.v.s >= 0 /\ IsSmall(r.v) /\ SmallInt(r.v) <= 200 THEN IntOf(BPow(l.v, SmallInt(r.v)))
+                             \* bases 0 and +-1 have an exact power for a non-negative exponent of ANY size: only its parity matters
+                             \* (the limb base 10^4 is even, so the parity of the exponent is that of its lowest limb)
+                             ELSE IF r.v.s > 0 /\ l.v.s = 0 THEN IntOf(BigOf(0))
+                             ELSE IF r.v.s > 0 /\ l.v.m = <<1>> THEN IntOf(BigOf(IF l.v.s < 0 /\ r.v.m[1] % 2 = 1 THEN -1 ELSE 1))
+                             ELSE NoInt
            [] t.k = "eq"  -> IF BCmp(l.v, r.v) = 0 THEN l ELSE NoInt
            [] OTHER -> NoInt          \* division: not integer-pure
 \* an equation whose integer sides differ must raise
